@@ -13,6 +13,7 @@ type hobj struct {
 	wl   *spg.WLRecipe
 	list []string // the slice the caller passed to NewWordList
 	orig []string
+	ctor spg.SFFunction // what the constructor left in SeparatorFunc (nil on the pinned tree): a caller who only sets SeparatorChar keeps it
 }
 
 func snapshot(o *hobj) string {
@@ -59,6 +60,15 @@ func init() {
 				drain(capOut)
 				drain(capErr)
 				o.wl = spg.NewWLRecipe(t.int(), wl)
+				if i%2 == 0 {
+					// every other wordlist recipe is a COPY of what the constructor returned (`variant := *template`), the
+					// template itself being changed afterwards: a recipe is a value, its copy owes nothing to the original
+					template := o.wl
+					cp := *template
+					o.wl = &cp
+					template.SeparatorChar, template.Length, template.Capitalize = "#template#", 1, spg.CSAll
+				}
+				o.ctor = o.wl.SeparatorFunc
 				t.sepArg(o.wl)
 				o.wl.Capitalize = spg.CapScheme(t.str())
 				objs[i] = o
@@ -90,7 +100,7 @@ func init() {
 			case "setw":
 				o.wl.Length = t.int()
 				o.wl.SeparatorChar = ""
-				o.wl.SeparatorFunc = nil
+				o.wl.SeparatorFunc = o.ctor
 				t.sepArg(o.wl)
 				o.wl.Capitalize = spg.CapScheme(t.str())
 				out = append(out, "-")
